@@ -28,8 +28,9 @@ def patterns(rank, kinds):
 class Key:
     """builds the key object and the label-level description of a selector pattern"""
 
-    def __init__(self, W, D, x_letters, pattern, form="dict_letter", subset_ok=None):
+    def __init__(self, W, D, x_letters, pattern, form="dict_letter", subset_ok=None, order=None):
         self.W = W
+        self.order = order  # None: the key names the dimensions in the array's order; "reversed": the other way round
         self.sel = {}
         for l, k in zip(x_letters, pattern):
             d = D[l]
@@ -52,14 +53,19 @@ class Key:
     def key(self):
         if not self.sel:
             return Ellipsis
+        named = list(self.sel.items())
+        if self.order == "reversed":
+            named = named[::-1]
+        elif self.order == "rotated":
+            named = named[1:] + named[:1]
         if self.form in ("dict_letter", "dict_name"):
             out = {}
-            for l, s in self.sel.items():
+            for l, s in named:
                 k = l if self.form == "dict_letter" else self.D[l].name
                 out[k] = s[1]
             return out
         items = []
-        for l, s in self.sel.items():
+        for l, s in named:
             assert s[0] == "I"
             items.append(s[1])
         if self.form == "bare":
@@ -205,6 +211,12 @@ def sk_reads(tier):
                 if set(pat) <= {"N"} and f != "dict_letter":
                     continue
                 out.append({"x": ALPHA[:k], "pat": pat, "form": f})
+                # the key names the selected dimensions in another order than the array stores them
+                nsel = k - pat.count("N")
+                if nsel >= 2 and f in ("dict_letter", "tuple"):
+                    out.append({"x": ALPHA[:k], "pat": pat, "form": f, "order": "reversed"})
+                    if nsel >= 3:
+                        out.append({"x": ALPHA[:k], "pat": pat, "form": f, "order": "rotated"})
     if tier == "thorough":
         for pat in patterns(5, "NIS"):
             if pat.count("S") <= 2 and pat.count("I") <= 2 and pat.count("N") <= 2:
@@ -249,10 +261,10 @@ READ_TARGETS = [
     note="items of different dimensions may coincide (then a bare/tuple key is ambiguous and must raise); subset Dimensions carry a letter the array does not have",
 )
 def u_read(W, sk):
-    D = mk_dims(W, sk["x"])
+    D = mk_dims(W, sk["x"], numeric_ok=True)
     x = W.array("x", [D[l] for l in sk["x"]], int_ok=True)
     X = SL.lab(W, x)
-    K = Key(W, D, sk["x"], sk["pat"], sk["form"])
+    K = Key(W, D, sk["x"], sk["pat"], sk["form"], order=sk.get("order"))
     snaps = SL.snapshot(W, [x])
     key = K.key()
     out = W.call(lambda: x[key])
@@ -377,6 +389,8 @@ def sk_writes(tier):
                     if tier == "quick" and k == 3 and rhs in ("array_perm_extra",) and pat.count("N") == 3:
                         continue
                     out.append({"x": ALPHA[:k], "pat": pat, "form": f, "rhs": rhs})
+                    if k - pat.count("N") >= 2 and f in ("dict_letter", "tuple") and rhs in ("number", "array"):
+                        out.append({"x": ALPHA[:k], "pat": pat, "form": f, "rhs": rhs, "order": "reversed"})
     if tier == "quick":
         for pat in displaced_patterns("SL"):
             out.append({"x": ALPHA[:4], "pat": pat, "form": "dict_letter", "rhs": "number"})
@@ -412,9 +426,9 @@ def region_dims(W, K, D):
     note="list selectors hold pairwise distinct items and are claimed for numbers on the right-hand side; a FlodymArray source for a list-selected dimension is matched by position in the list (its own items are ignored, a length-1 source is broadcast) -- the statement does not fix that case, so it is not claimed",
 )
 def u_write(W, sk):
-    D = mk_dims(W, sk["x"])
+    D = mk_dims(W, sk["x"], numeric_ok=True)
     x = W.array("x", [D[l] for l in sk["x"]])
-    K = Key(W, D, sk["x"], sk["pat"], sk["form"])
+    K = Key(W, D, sk["x"], sk["pat"], sk["form"], order=sk.get("order"))
     key = K.key()
     before = SL.lab_of_values(W, x.values.copy(), [D[l] for l in sk["x"]])
     dsnap = (x.dims, list(x.dims.dim_list), x.values)
@@ -727,3 +741,90 @@ def u_mustfail_write(W, sk):
     W.call(do)
     X = SL.lab(W, x)
     W.forall("mf.entries(wrong: no frame)", [W.size_of(D[l]) for l in sk["x"]], lambda idx: W.num_eq(X.at(dict(zip(sk["x"], idx))), c))
+
+
+# ----------------------------------------------------------------------------------------
+# tuple keys that name several items of one dimension, in any order and interleaved with items of other
+# dimensions (bounded: a tuple has a concrete length, so the symbolic units take lists in dict keys instead)
+
+
+@unit(
+    "index.tuple_key_interleaved.bounded",
+    props=["C05", "C06", "C04"],
+    targets=["flodym.flodym_arrays.FlodymArray.__getitem__", "flodym.flodym_arrays.FlodymArray.__setitem__", "flodym.flodym_arrays.SubArrayHandler._to_dict_tuple", "flodym.flodym_arrays.SubArrayHandler._get_key_single_item", "flodym.flodym_arrays.SubArrayHandler._convert_lists_to_meshgrid"],
+    skeletons=lambda tier: [{"rank": r, "op": op} for r in (2, 3, 4) for op in ("read", "write_number", "write_ndarray")],
+    mode="bounded",
+    note="x[i1, j1, i2, ...]: a tuple of bare items, zero, one or several per dimension, in random order (items of one dimension need not be adjacent, dimensions need not come in the array's order): the addressed region is the product of the named items per dimension (all items where none is named); a read returns it with single-item dimensions dropped (several items of one dimension in a read are claimed for writes only: a refusal is accepted), a write fills exactly it",
+)
+def u_tuple_key_interleaved(W, sk):
+    import numpy as np
+    from flodym.dimensions import Dimension, DimensionSet
+    from flodym.flodym_arrays import FlodymArray
+
+    rng = W.rng
+    rank = sk["rank"]
+    names = ["Element", "Region", "Time", "Product"][:rank]
+    letters = ["e", "r", "t", "p"][:rank]
+    dims = []
+    for nm, l in zip(names, letters):
+        n = rng.choice([2, 3, 4])
+        items = [2000 + 5 * k for k in range(n)] if l == "t" else [f"{l.upper()}{k}" for k in range(n)]
+        dims.append(Dimension(name=nm, letter=l, items=items, dtype=int if l == "t" else str))
+    order = list(range(rank))
+    rng.shuffle(order)  # storage order of the array
+    dl = [dims[i] for i in order]
+    shape = tuple(d.len for d in dl)
+    vals = np.arange(1, int(np.prod(shape)) + 1, dtype=float).reshape(shape) + 0.5
+    x = FlodymArray(dims=DimensionSet(dim_list=list(dl)), values=vals.copy(), name="x")
+    # chosen items per dimension: none, one or several (in a random order)
+    chosen = []
+    for d in dl:
+        k = rng.choice([0, 1, 1, 2, 2, 3])
+        k = min(k, d.len)
+        pos = list(range(d.len))
+        rng.shuffle(pos)
+        chosen.append(pos[:k])
+    if not any(chosen):
+        chosen[0] = [0]
+    flat = [(a, p) for a, ps in enumerate(chosen) for p in ps]
+    rng.shuffle(flat)
+    # keep the per-dimension order as it appears in the key
+    per_dim = [[p for a2, p in flat if a2 == a] for a in range(rank)]
+    key = tuple(dl[a].items[p] for a, p in flat)
+    if len(key) == 1:
+        key = key[0]
+    W.inputs.update({"letters": [d.letter for d in dl], "items": [list(d.items) for d in dl], "key": [str(k) for k in (key if isinstance(key, tuple) else (key,))]})
+    region = np.ix_(*[(ps if ps else list(range(dl[a].len))) for a, ps in enumerate(per_dim)])
+    kept = [a for a in range(rank) if len(per_dim[a]) != 1]
+    squeeze_axes = tuple(a for a in range(rank) if len(per_dim[a]) == 1)
+    want = np.squeeze(vals[region], axis=squeeze_axes) if squeeze_axes else vals[region]
+    if sk["op"] == "read":
+        out = W.call(lambda: x[key])
+        if any(len(ps) > 1 for ps in per_dim) and out.kind == "raise":
+            # several items of one dimension: the statement claims lists of items for writes only, and the library
+            # refuses to build an array from such a read -- accepted; a result, if one is returned, is checked below
+            W.prove("read.source_unchanged", bool(np.array_equal(x.values, vals)), kind="frame")
+            return
+        W.prove("read.returns", out.kind == "return", detail=repr(out))
+        if out.kind != "return":
+            return
+        y = out.value
+        W.prove("read.letters", tuple(y.dims.letters) == tuple(dl[a].letter for a in kept), detail=f"{y.dims.letters}")
+        want_items = [[dl[a].items[p] for p in per_dim[a]] if per_dim[a] else list(dl[a].items) for a in kept]
+        W.prove("read.items", [list(d.items) for d in y.dims] == want_items, detail=f"{[list(d.items) for d in y.dims]} expected {want_items}")
+        W.prove("read.entries", np.shape(y.values) == want.shape and bool(np.array_equal(y.values, want)), detail=f"got {np.array(y.values).tolist()} expected {want.tolist()}")
+        W.prove("read.source_unchanged", bool(np.array_equal(x.values, vals)), kind="frame")
+        return
+    if sk["op"] == "write_number":
+        rhs = 7.25
+        expect = vals.copy()
+        expect[region] = rhs
+    else:
+        rhs = -(np.arange(want.size, dtype=float).reshape(want.shape) + 1)
+        expect = vals.copy()
+        expect[region] = rhs.reshape(vals[region].shape)
+    out = W.call(lambda: x.__setitem__(key, rhs))
+    W.prove("write.returns", out.kind == "return", detail=repr(out))
+    if out.kind != "return":
+        return
+    W.prove("write.region_filled_rest_untouched", np.shape(x.values) == expect.shape and bool(np.array_equal(x.values, expect)), detail=f"differs at {np.argwhere(np.array(x.values) != expect).tolist()[:4]}")
